@@ -119,6 +119,10 @@ def run(ctx):
         ctx.unrecognised("C14.nodes", "C14.nodes:node_action", w.where(f), str(e))
     reply_fallback_rule(ctx, w, f, paths)
     scheme_delimiter_rule(ctx, w, f)
+    ctx.rule("C14.replaced-node", "a renamed (deprecated) element: the node the sanitizer continues with is the replacement that is in the tree, so its attributes "
+                                  "and subtree are cleaned like any other element's")
+    from . import C15 as _C15
+    _C15.replacement_node_rules(ctx, w, "C14.replaced-node")
     fc = w.fn(CL + "<impl ruma_html::sanitizer_config::SanitizerConfig>::clean_node")
     dex2 = D.Dex(w.lookup, adt_discr=w.adt_discr, unroll=1, effects=lambda n: n.startswith("ruma_html::"))
     paths = dex2.paths(fc, [D.sym("self"), D.sym("node"), D.sym("depth")])
